@@ -64,3 +64,7 @@ func VerifRecordVisits(sp any, f func()) {
 	s := sp.(*servicePort)
 	s.ServicePort = &recordingSP{k8spServicePort: s.ServicePort, f: f}
 }
+
+// VerifSetNextSvcID puts the id counter where a long-running Felix would have it (used to reach the uint32 wrap
+// without 2^32 allocations).
+func (s *Syncer) VerifSetNextSvcID(n uint32) { s.nextSvcID = n }
